@@ -15,7 +15,7 @@ KW = {"MAXimum": "Maximum", "MINimum": "Minimum", "DEFault": "Default", "UP": "U
 
 
 def inline_nb(n, r):
-    return "numeric::NumericBuilder" in r or "numeric::NumericValue" in r and not r.endswith("try_from")
+    return r == "scpi::error::Error::new" or "numeric::NumericBuilder" in r or "numeric::NumericValue" in r and not r.endswith("try_from")
 
 
 def run(R, tier):
@@ -25,7 +25,8 @@ def run(R, tier):
     from . import dispatch as D_
     # private helpers of the numeric module are analysed in place
     _inh = D_.inline_inherent(("scpi_contrib::scpi1999::numeric::",))
-    eng = CB.engine("scpi_contrib", inline=lambda n, r: _inh(n, r) and (next((x for x in uc.bodies if x.npath == r), None) is not None and next((x for x in uc.bodies if x.npath == r)).j.get("vis") == "Restricted"), loop_limit=8)
+    # (the constructor of the error value is analysed in place too: an error built with Error::new(code) is read like code.into())
+    eng = CB.engine("scpi_contrib", inline=lambda n, r: r == "scpi::error::Error::new" or _inh(n, r) and (next((x for x in uc.bodies if x.npath == r), None) is not None and next((x for x in uc.bodies if x.npath == r)).j.get("vis") == "Restricted"), loop_limit=8)
 
     # ---- R17.1 keyword table --------------------------------------------------------------------------
     bs = [b for ty, b in CV.conversions(uc) if "NumericValue<" in ty]
